@@ -155,39 +155,54 @@ def placeBoundaries : List Nat → Nat → Nat → List Nat → List Nat × List
   | b :: r, byteCount, v, rsb =>
     if b = byteCount then placeBoundaries r byteCount v (rsb ++ [v]) else (b :: r, rsb)
 
+/-- `s.isPlainASCII = false` when the rune's first byte is ≥ 0x80 -/
+def PB.markPlain (pb : PB) (ra : RuneAt) : PB :=
+  if ra.r ≥ 0x80 || ra.sz ≠ 1 then { pb with plain := false } else pb
+
+/-- `s.runeOffsets = append(s.runeOffsets, v)` every 100th rune -/
+def PB.sample (pb : PB) (runeIdx v : Nat) : PB :=
+  if runeIdx % 100 = 0 then { pb with runeOffsets := pb.runeOffsets ++ [v] } else pb
+
+/-- the posting of the trigram ending at this rune, from the third rune of the document on -/
+def PB.gram (pb : PB) (runeIndex g1 g2 r newOff : Nat) : PB :=
+  if runeIndex < 2 then pb else pb.addTrigram g1 g2 r newOff
+
 /-- one iteration; `rc0`, `eb0` = `s.runeCount`, `s.endByte` at entry (`endRune = rc0`) -/
 def Loop.step (rc0 eb0 : Nat) (st : Loop) (ra : RuneAt) : Loop :=
-  let pb := st.pb
-  let pb := if ra.r ≥ 0x80 || ra.sz ≠ 1 then { pb with plain := false } else pb
-  let pb := if (rc0 + st.runeIndex) % 100 = 0 then { pb with runeOffsets := pb.runeOffsets ++ [eb0 + ra.off] } else pb
-  let (bsb, rsb) := placeBoundaries st.bsb ra.off (rc0 + st.runeIndex) st.rsb
-  let pb := if st.runeIndex < 2 then pb else pb.addTrigram st.g1 st.g2 ra.r (rc0 + st.runeIndex - 2)
-  ⟨pb, st.g2, ra.r, st.runeIndex + 1, bsb, rsb⟩
+  let pb := ((st.pb.markPlain ra).sample (rc0 + st.runeIndex) (eb0 + ra.off)).gram st.runeIndex st.g1 st.g2 ra.r
+    (rc0 + st.runeIndex - 2)
+  let pl := placeBoundaries st.bsb ra.off (rc0 + st.runeIndex) st.rsb
+  ⟨pb, st.g2, ra.r, st.runeIndex + 1, pl.1, pl.2⟩
 
 def pairUp : List Nat → Option (List (Nat × Nat))
   | [] => some []
   | [_] => none
   | a :: b :: r => (pairUp r).map ((a, b) :: ·)
 
+/-- the builder once the document is accepted: `s.runeCount += runeIndex` happened before, now
+    `s.endRunes = append(s.endRunes, s.runeCount)`, `s.endByte += dataSz` -/
+def PB.close (pb : PB) (runeCount byteCount : Nat) : PB :=
+  { pb with runeCount := runeCount, endRunes := pb.endRunes ++ [runeCount], endByte := pb.endByte + byteCount }
+
+/-- what follows the rune loop of `newSearchableString`; `rc0` = `s.runeCount` at entry -/
+def PB.finishAdd (rc0 byteCount : Nat) (st : Loop) : Outcome (PB × List (Nat × Nat)) :=
+  match st.bsb with
+  | b :: _ =>
+    if b < byteCount then .err "no rune for section boundary" else
+    match pairUp (placeBoundaries st.bsb byteCount (rc0 + st.runeIndex) st.rsb).2 with
+    | none => .panic "runeSectionBoundaries[i+1]"
+    | some rs => .ok (st.pb.close (rc0 + st.runeIndex) byteCount, rs)
+  | [] =>
+    match pairUp st.rsb with
+    | none => .panic "runeSectionBoundaries[i+1]"
+    | some rs => .ok (st.pb.close (rc0 + st.runeIndex) byteCount, rs)
+
 /-- `postingsBuilder.newSearchableString(data, byteSections)`: new builder state and rune sections, `err` for
     "no rune for section boundary", `panic` for the out-of-range read of `runeSectionBoundaries[i+1]`.
     (On `err` the Go builder is left half-updated; callers drop it — the model returns no state.) -/
 def PB.add (s : PB) (data : Bytes) (secs : List (Nat × Nat)) : Outcome (PB × List (Nat × Nat)) :=
-  let bsb0 := secs.flatMap fun p => [p.1, p.2]
-  let runes := decodeAll data
-  let st := runes.foldl (Loop.step s.runeCount s.endByte) ⟨s, 0, 0, 0, bsb0, []⟩
-  let byteCount := data.length
-  let pb := { st.pb with runeCount := s.runeCount + st.runeIndex }
-  match st.bsb with
-  | b :: _ => if b < byteCount then .err "no rune for section boundary" else
-    let (_, rsb) := placeBoundaries st.bsb byteCount (s.runeCount + st.runeIndex) st.rsb
-    match pairUp rsb with
-    | none => .panic "runeSectionBoundaries[i+1]"
-    | some rs => .ok ({ pb with endRunes := pb.endRunes ++ [pb.runeCount], endByte := pb.endByte + byteCount }, rs)
-  | [] =>
-    match pairUp st.rsb with
-    | none => .panic "runeSectionBoundaries[i+1]"
-    | some rs => .ok ({ pb with endRunes := pb.endRunes ++ [pb.runeCount], endByte := pb.endByte + byteCount }, rs)
+  PB.finishAdd s.runeCount data.length
+    ((decodeAll data).foldl (Loop.step s.runeCount s.endByte) ⟨s, 0, 0, 0, secs.flatMap fun p => [p.1, p.2], []⟩)
 
 /-! ### writePostings -/
 
